@@ -11,13 +11,16 @@ pub mod c04;
 pub mod c05;
 pub mod c06;
 pub mod c07;
+pub mod c08;
 pub mod c09;
 pub mod c10;
 pub mod c11;
 pub mod c12;
 pub mod c14;
+pub mod c15;
 pub mod c16;
 pub mod c17;
+pub mod c18;
 pub mod c19;
 pub mod c20;
 pub mod pad;
@@ -103,6 +106,21 @@ pub fn dispatch(prop: &str, ctx: Ctx, replay: Option<&str>) -> i32 {
             crate::run::start_watchdog(std::time::Duration::from_secs(900), None);
             let rep = c17::run(ctx);
             finish(rep, c17::meta(), ctx.tier, ctx.seed, started)
+        }
+        "C18" => {
+            crate::run::start_watchdog(std::time::Duration::from_secs(600), None);
+            let rep = c18::run(ctx);
+            finish(rep, c18::meta(), ctx.tier, ctx.seed, started)
+        }
+        "C15" => {
+            crate::run::start_watchdog(std::time::Duration::from_secs(900), None);
+            let rep = c15::run(ctx);
+            finish(rep, c15::meta(), ctx.tier, ctx.seed, started)
+        }
+        "C08" => {
+            crate::run::start_watchdog(std::time::Duration::from_secs(900), None);
+            let rep = c08::run(ctx);
+            finish(rep, c08::meta(), ctx.tier, ctx.seed, started)
         }
         "C03" => {
             let mut rep = Report::new("C03");
